@@ -57,10 +57,26 @@ def gen_ruleset(rnd):
                              "generate": rnd.random() < 0.4}}
         if d["correlation"]["type"] == "event_count":
             d["correlation"]["condition"] = {"gte": 2}
+        if (d["correlation"]["type"] == "temporal" and len(refs) >= 2 and all(isinstance(r, str) and r.startswith(("rule", "corr")) for r in refs)
+                and rnd.random() < 0.6):
+            # extended condition: the references come from the condition text only, there is no rules list
+            expr = refs[0]
+            for r in refs[1:]:
+                expr += rnd.choice([" and ", " or ", " and not "]) + r
+            d["correlation"]["condition"] = expr
+            del d["correlation"]["rules"]
         if rnd.random() < 0.5:
             del d["id"]
         docs.append(d)
     return docs
+
+
+def refs_of(c):
+    """the rules a correlation section refers to: its rules list, or the identifiers of its extended condition"""
+    if "rules" in c:
+        return c["rules"]
+    import re
+    return [w for w in re.findall(r"[\w-]+", c.get("condition", "")) if w not in ("and", "or", "not")]
 
 
 def gen_cases(tier, seed, gen, effort):
@@ -139,7 +155,7 @@ def make_request(case, impl, gen):
     for d in docs:
         keys = [key(d[k]) for k in ("name", "id") if k in d]
         c = d.get("correlation")
-        jd.append({"keys": keys, "refs": [key(r) for r in c["rules"]] if c else [], "generate": bool(c and c.get("generate"))})
+        jd.append({"keys": keys, "refs": [key(r) for r in refs_of(c)] if c else [], "generate": bool(c and c.get("generate"))})
     r = {"op": "coll.check", "docs": jd}
     if impl["outcome"] == "ok":
         r["implOrder"] = impl["order"]
